@@ -322,6 +322,13 @@ def gen_plan(seed, idx, mode):
     enabled = [(w, o) for (w, o) in table if o in (first, "get", "m_row", "v_row", "s_get", "d_item") or r.chance(0.75)]
     nops = r.range(4, 40)
     maxn = r.choice([3, 6, 6, 12])
+    # swarm over sizes: a few runs use long arrays (loops unrolled by 4/8/16 with a remainder, counters
+    # narrower than size_t, the 200-element dispatch threshold of the in-place operators), with fewer ops
+    big = r.below(100)
+    if big < 4 or (family == "string" and big < 15):
+        # (the container families take their dimensions from maxn only when it is larger than 12: families.gen_family_op)
+        maxn = (300 if big == 0 else 70) if family == "fixed1d" else (48 if family == "string" else 20)
+        nops = min(nops, 14)
     ops = []
     vs = r.below(1000)
     for k in range(nops):
